@@ -63,9 +63,15 @@ def inst_of(tok):
 
 
 def mkti(pair):
+    """TimeInterval from two datetime tokens; the end is handed over as a `timedelta` for a deterministic half of the
+    pairs - in particular as the *falsy* `timedelta(0)` for zero-length intervals (seeded change C05-n2: `end or max`)"""
+    from datetime import timedelta
     from geostructures.time import TimeInterval
     a, b = pair.split(',')
-    return TimeInterval(mkdt(a), mkdt(b))
+    da, db = mkdt(a), mkdt(b)
+    if a.split('@')[1] == b.split('@')[1] and (int(a.split('@')[0]) // 1000 + int(b.split('@')[0]) // 1000) % 2 == 0:
+        return TimeInterval(da, db - da)
+    return TimeInterval(da, db)
 
 
 def build_routed(tok, route):
@@ -259,11 +265,11 @@ def spec(line):
 
 
 def impl_for(_line):
-    return impl
+    return impl_coll if _line.startswith('st.coll') else impl
 
 
 def spec_for(_line):
-    return spec
+    return spec_coll if _line.startswith('st.coll') else spec
 
 
 # ---- generators ------------------------------------------------------------------------------------------
@@ -330,6 +336,45 @@ def placement(x, y):
 
 
 REPS = ['n', 0, 60, -330, 345, -720, 840]
+
+
+
+# ---- support stream (no model): the collection override path ----------------------------------------------------------
+# `collection.intersects(shape)` must be "some member passes the shape-level test" (as coded: over the members that have
+# time bounds when the query has some).  Long-lived early members, late queries (seeded change C05-n3: a temporal
+# quick-reject against Track.end, which is the end of the last-STARTING member).
+
+def impl_coll(line):
+    import random as _r
+    from geostructures import FeatureCollection, Track
+    _op, kind, seed = line.split()
+    rng = _r.Random(int(seed))
+    T0 = S.BASE_US
+    H = 3_600_000_000
+
+    def iv():
+        a = T0 + rng.randrange(0, 40) * H
+        return (a, a + rng.choice([0, 1, 2, 30, 60]) * H)
+    pool = S.single_pool(0)
+    members = []
+    for _i in range(rng.randint(1, 6)):
+        tok = rng.choice(pool)
+        w = iv() if (kind == 'T' or rng.random() < 0.7) else None
+        route = 'none' if w is None else (f'd:{w[0]}@o0' if w[0] == w[1] else f'i:{w[0]}@o0,{w[1]}@o0')
+        members.append(build_routed(tok, route))
+    qw = iv() if rng.random() < 0.8 else None
+    if qw is not None and rng.random() < 0.4:      # a late query inside a long early member, after the last start
+        qw = (T0 + 45 * H, T0 + 46 * H)
+    q = build_routed(rng.choice(pool), 'none' if qw is None else (f'd:{qw[0]}@o0' if qw[0] == qw[1] else f'i:{qw[0]}@o0,{qw[1]}@o0'))
+    col = (Track if kind == 'T' else FeatureCollection)(members)
+    got = col.intersects(q)
+    considered = [m for m in col.geoshapes if (q.dt is None or m.dt is not None)]
+    want = any(m.intersects(q) for m in considered)
+    return 'OK' if got == want else f'collection.intersects={got} but some-considered-member-intersects={want}'
+
+
+def spec_coll(_line):
+    return 'OK'
 
 
 def check(run):
@@ -486,6 +531,12 @@ def check(run):
         if sp:
             lines.append(f'st.{op} {A} {rnd_route(rnd_iv())} {B} {rnd_route(rnd_iv())} | {sp}')
     run.run_cases('random-us-tz', lines, impl, spec, tag=tag, nontrivial=nontrivial)
+
+    # ---- 7. the collection override path (support, no model)
+    lines = [f'st.coll {"T" if i % 2 else "F"} {rng.randrange(10 ** 9)}' for i in range(run.scale(300, 6000))]
+    run.run_cases('np-collection-intersects', lines, impl_coll, spec_coll, model=False,
+                  spec_compare=lambda a, sp: a == 'OK',
+                  known_key=lambda ln, a, sp: 'collection.intersects/' + ln.split()[1])
 
     missing = [f'{ka}x{kb}' for ka in S.KINDS for kb in S.KINDS if not run.hist.get(f'kinds:{ka}x{kb}')]
     run.note(f'kind pairs without a case: {missing or "none"}; spatial classes per kind pair: '
